@@ -184,7 +184,10 @@ class ListeningConnection(Connection):
         )
         connection._reader, connection._writer = reader, writer
         await self.network.on_peer_accepted(connection)
-        await connection.set_state(ConnectionState.CONNECTED)
+        # The connection is closed again when no (valid) peer initialization
+        # message was received: do not report it as connected afterwards
+        if connection.state not in self._CLOSING_STATES:
+            await connection.set_state(ConnectionState.CONNECTED)
 
 
 class DataConnection(Connection, abc.ABC):
